@@ -37,6 +37,8 @@ type Case struct {
 	PosSel []int       `json:"pos_sel"` // position selectors, mapped to k = sel mod N (N = requests of the fault-free run)
 	Second *Second     `json:"second,omitempty"`
 	AllPos bool        `json:"all_pos"` // thorough: every position
+	// every position when the fault-free run has at most this many requests (contention template)
+	AllPosMax int `json:"all_pos_max,omitempty"`
 }
 
 // Second is the second fault of a double-fault plan.
@@ -51,9 +53,34 @@ func gen(t *rapid.T) Case {
 	o := copysc.DefaultGen()
 	o.Pairings = []string{"same-reg", "two-reg", "two-reg", "reg-layout", "reg-layout", "layout-reg", "two-layout", "same-repo"}
 	var c Case
+	// a third of the cases aims at contention between the per-child goroutines: nested indexes whose parts
+	// share blobs and child manifests, small images, a latency plan, and every request position of small runs
+	contention := rapid.IntRange(0, 2).Draw(t, "contention") == 0
+	if contention {
+		o.Img.Contention = true
+		o.Img.MaxLayers, o.Img.MaxEntries, o.Img.MaxDepth = 2, 3, 2
+		o.Img.Schema1, o.Img.Foreign = false, false
+	}
 	c.Base = copysc.Gen(t, o)
 	c.Base.TgtFeat.Validate = false // let a premature manifest be written so it is observed, not rejected
 	c.Base.SrcFeat.Validate = false
+	if contention {
+		c.AllPosMax = 90
+		if c.Base.Procs == 1 {
+			c.Base.Procs = 4
+		}
+		if len(c.Base.Delays) == 0 {
+			n := rapid.IntRange(2, 6).Draw(t, "c_ndelays")
+			for i := 0; i < n; i++ {
+				c.Base.Delays = append(c.Base.Delays, rapid.IntRange(0, len(copysc.DelayTable)-1).Draw(t, "c_delay"))
+			}
+		}
+		c.Kinds = []string{rapid.SampledFrom([]string{"status-404", "status-401", "status-500", "reset-before", "truncate", "cancel"}).Draw(t, "c_kind")}
+		for i := 0; i < 6; i++ {
+			c.PosSel = append(c.PosSel, rapid.IntRange(0, 9999).Draw(t, "pos"))
+		}
+		return c
+	}
 	nk := rapid.IntRange(1, 3).Draw(t, "nkinds")
 	for i := 0; i < nk; i++ {
 		c.Kinds = append(c.Kinds, rapid.SampledFrom(allKinds).Draw(t, "kind"))
@@ -443,6 +470,9 @@ func check(c *Case, ev *evid.Collector) *evid.Violation {
 	base := c.Base
 	g := base.Graph
 	classes := []string{"pairing:" + base.Pairing, "pre:" + base.Pre.Mode}
+	if c.AllPosMax > 0 {
+		classes = append(classes, "template:contention")
+	}
 	for _, l := range g.Labels {
 		classes = append(classes, "graph:"+l)
 	}
@@ -467,7 +497,7 @@ func check(c *Case, ev *evid.Collector) *evid.Violation {
 		return nil
 	}
 	positions := map[int]bool{}
-	if c.AllPos || evid.Tier() == "thorough" && n <= 150 {
+	if c.AllPos || n <= c.AllPosMax || evid.Tier() == "thorough" && n <= 150 {
 		for k := 0; k < n; k++ {
 			positions[k] = true
 		}
@@ -526,7 +556,7 @@ func check(c *Case, ev *evid.Collector) *evid.Violation {
 			}
 			if r.viol != nil {
 				// pin the failing fault so that the saved case replays it in every tier
-				c.Kinds, c.PosSel, c.AllPos = []string{kind}, []int{k}, false
+				c.Kinds, c.PosSel, c.AllPos, c.AllPosMax = []string{kind}, []int{k}, false, 0
 				return r.viol
 			}
 		}
